@@ -7,7 +7,6 @@ import (
 
 	"github.com/containerd/containerd/v2/core/remotes/docker"
 	"github.com/containerd/containerd/v2/pkg/reference"
-	"github.com/containerd/containerd/v2/pkg/snapshotters"
 	"github.com/containerd/stargz-snapshotter/fs/source"
 	"github.com/containerd/stargz-snapshotter/internal/verifc20"
 )
@@ -33,7 +32,9 @@ func verifC20Adapt(gs source.GetSources) verifc20.ReadFn {
 
 // TestVerifC20CRI: same generator and oracle as TestVerifC20 (fs/source), with the readers that
 // live in this package: sourceFromCRILabels and the combination sources(cri, default) that the
-// snapshotter is configured with (service.go).
+// snapshotter is configured with (service.go).  These two unexported functions are the only unexported
+// identifiers the C20 harnesses name; if they are renamed the check falls back to TestVerifC20Mount
+// (exported API only), see checks/C20.py.
 func TestVerifC20CRI(t *testing.T) {
 	hosts := func(reference.Spec) ([]docker.RegistryHost, error) { return nil, nil }
 	verifc20.Run(verifc20.Impl{
@@ -42,8 +43,5 @@ func TestVerifC20CRI(t *testing.T) {
 		ReadDefault:    verifC20Adapt(source.FromDefaultLabels(hosts)),
 		ReadCRI:        verifC20Adapt(sourceFromCRILabels(hosts)),
 		ReadBoth:       verifC20Adapt(sources(sourceFromCRILabels(hosts), source.FromDefaultLabels(hosts))),
-		KeyPairs: [][2]string{{targetRefLabel, snapshotters.TargetRefLabel}, {targetLayerDigestLabel, snapshotters.TargetLayerDigestLabel},
-			{targetImageLayersLabel, snapshotters.TargetImageLayersLabel}, {targetImageURLsLabelPrefix, verifc20.KURLsPfx},
-			{targetURLsLabel, verifc20.KURLs}},
 	})
 }
